@@ -432,11 +432,14 @@ example : dfsSolve true ⟨[⟨0, 1⟩, ⟨0, 1⟩], [.rel (.sub (.var 0) (.var 
 
 /-- **dfs_returns_solutions** (after the repair): every assignment returned by the DFS solver —
 whatever the hints and the solution limit — gives each variable a value inside its domain and
-satisfies every constraint of the model. -/
-theorem dfs_returns_solutions (M : Model) (hints : List (Nat × Int))
-    (limit : Nat) : ∀ a ∈ dfsSolve true M hints limit, IsSolution M a := by
+satisfies every constraint of the model.  This holds for *every* variable selection `sel` and every
+order `ord` in which the values of the selected variable are tried (so also for CPython's set
+iteration order, which the executable mirror does not reproduce). -/
+theorem dfs_returns_solutions (sel : Doms → Option Nat) (ord : Doms → Nat → List Int) (hord : OrdOK ord)
+    (M : Model) (hints : List (Nat × Int))
+    (limit : Nat) : ∀ a ∈ dfsSolveG sel ord true M hints limit, IsSolution M a := by
   intro a ha
-  unfold dfsSolve at ha
+  unfold dfsSolveG at ha
   by_cases hne : ∀ d ∈ M.vars, d.lb ≤ d.ub
   · have h0 := initDoms_sub M.vars hne hints
     simp only [h0.2, Bool.and_false, Bool.false_eq_true, if_false] at ha
@@ -444,7 +447,7 @@ theorem dfs_returns_solutions (M : Model) (hints : List (Nat × Int))
     · cases ha
     · next D' hp =>
       have := propagate_sub _ _ h0.1 h0.2 hp
-      exact backtrack_sound limit _ D' ⟨[], false⟩ this.1 this.2 (by simp) a ha
+      exact backtrack_sound hord limit _ D' ⟨[], false⟩ this.1 this.2 (by simp) a ha
   · simp only [not_forall] at hne
     obtain ⟨d, hd, hlt⟩ := hne
     have := initDoms_empty M.vars ⟨d, hd, by omega⟩ hints
@@ -454,35 +457,93 @@ theorem dfs_returns_solutions (M : Model) (hints : List (Nat × Int))
 example : dfsSolve true ⟨[⟨0, 2⟩, ⟨0, 2⟩], [.rel (.add (.var 0) (.var 1)) (.const 2) false, .allDiff [0, 1]]⟩
     [(0, 2), (1, 7)] 100 = [[2, 0]] := by decide
 
+-- the hypotheses are met by the mirror's MRV / ascending order and e.g. by descending values
+example : SelOK pickVar ∧ OrdOK (fun D v => dget D v) ∧ OrdOK (fun D v => (dget D v).reverse) :=
+  ⟨pickVar_selOK, dget_ordOK, fun _ _ _ => List.mem_reverse⟩
+
 /-- **dfs_complete** (after the repair): if the model has a solution that agrees with every
 in-domain hint, the DFS solver returns at least one assignment — INFEASIBLE (`[]`) is reported
-only if no such solution exists. -/
-theorem dfs_complete (M : Model) (hsc : ∀ c ∈ M.cons, c.Scoped M.vars.length)
+only if no such solution exists.  For every variable selection that returns `none` only on
+all-singleton domains and `some v` only for an undecided variable (MRV is one), and every value
+order. -/
+theorem dfs_complete (sel : Doms → Option Nat) (ord : Doms → Nat → List Int) (hsel : SelOK sel)
+    (hord : OrdOK ord) (M : Model) (hsc : ∀ c ∈ M.cons, c.Scoped M.vars.length)
     (hints : List (Nat × Int)) (limit : Nat) (hl : 1 ≤ limit) (a : Asg) (ha : IsSolution M a)
     (hh : ∀ h ∈ hints, h.2 ∈ dget (M.vars.map fun d => irange d.lb d.ub) h.1 → val a h.1 = h.2) :
-    dfsSolve true M hints limit ≠ [] := by
+    dfsSolveG sel ord true M hints limit ≠ [] := by
   have hlen : a.length = M.vars.length := by simpa using (within_of_inDom ha.1).1
   have hall : ∀ c ∈ M.cons, c.Scoped a.length ∧ Holds a c :=
     fun c hc => ⟨by rw [hlen]; exact hsc c hc, ha.2 c hc⟩
   have h0 := initDoms_within ha.1 hints fun h hm x hx hxe => hh h hm (hxe ▸ hx)
-  unfold dfsSolve
+  unfold dfsSolveG
   obtain ⟨D', hp, hw⟩ := propagate_sound_aux hall (totalSize (initDoms M.vars hints) + 1) _ h0.1
   simp only [h0.1.no_empty, Bool.and_false, Bool.false_eq_true, if_false, hp]
-  exact backtrack_finds hl hall _ D' _ hw (propagate_shr _ _ hp h0.2).1 (by omega) (by intro h; cases h)
+  exact backtrack_finds hsel hord hl hall _ D' _ hw (propagate_shr _ _ hp h0.2).1 (by omega) (by intro h; cases h)
 
 /-- **dfs_infeasible_iff**: without hints the repaired DFS reports INFEASIBLE exactly when the
-model has no solution. -/
-theorem dfs_infeasible_iff (M : Model)
+model has no solution — whatever the selection and value order. -/
+theorem dfs_infeasible_iff (sel : Doms → Option Nat) (ord : Doms → Nat → List Int) (hsel : SelOK sel)
+    (hord : OrdOK ord) (M : Model)
     (hsc : ∀ c ∈ M.cons, c.Scoped M.vars.length) (limit : Nat) (hl : 1 ≤ limit) :
-    dfsSolve true M [] limit = [] ↔ ¬ ∃ a, IsSolution M a := by
+    dfsSolveG sel ord true M [] limit = [] ↔ ¬ ∃ a, IsSolution M a := by
   constructor
   · rintro h ⟨a, ha⟩
-    exact dfs_complete M hsc [] limit hl a ha (by simp) h
+    exact dfs_complete sel ord hsel hord M hsc [] limit hl a ha (by simp) h
   · intro h
-    cases hd : dfsSolve true M [] limit with
+    cases hd : dfsSolveG sel ord true M [] limit with
     | nil => rfl
     | cons a l =>
-      exact absurd ⟨a, dfs_returns_solutions M [] limit a (by rw [hd]; exact List.mem_cons_self)⟩ h
+      exact absurd ⟨a, dfs_returns_solutions sel ord hord M [] limit a
+        (by rw [hd]; exact List.mem_cons_self)⟩ h
+
+/-- **dfs_enumerates_all** (after the repair): with a solution limit above the number of solutions
+the DFS solver returns exactly the solutions of the model, each once — for every variable selection
+and value order. -/
+theorem dfs_enumerates_all (sel : Doms → Option Nat) (ord : Doms → Nat → List Int) (hsel : SelOK sel)
+    (hord : OrdOK ord) (M : Model) (hsc : ∀ c ∈ M.cons, c.Scoped M.vars.length) (limit : Nat)
+    (hbig : (solutions M).length < limit) :
+    (dfsSolveG sel ord true M [] limit).Nodup ∧
+      ∀ a, a ∈ dfsSolveG sel ord true M [] limit ↔ IsSolution M a := by
+  have hsound := dfs_returns_solutions sel ord hord M [] limit
+  have hnd : (dfsSolveG sel ord true M [] limit).Nodup := by
+    unfold dfsSolveG
+    simp only
+    split
+    · exact List.nodup_nil
+    · split
+      · exact List.nodup_nil
+      · exact (backtrack_mono _ _ _).2.2 List.nodup_nil
+  refine ⟨hnd, fun a => ⟨hsound a, fun ha => ?_⟩⟩
+  have hlen : a.length = M.vars.length := by simpa using (within_of_inDom ha.1).1
+  have hall : ∀ c ∈ M.cons, c.Scoped a.length ∧ Holds a c :=
+    fun c hc => ⟨by rw [hlen]; exact hsc c hc, ha.2 c hc⟩
+  have h0 := initDoms_within ha.1 [] (by simp)
+  have hle : (dfsSolveG sel ord true M [] limit).length ≤ (solutions M).length :=
+    hnd.length_le_of_subset fun b hb => mem_solutions.2 (hsound b hb)
+  revert hle
+  unfold dfsSolveG
+  obtain ⟨D', hp, hw⟩ := propagate_sound_aux hall (totalSize (initDoms M.vars []) + 1) _ h0.1
+  simp only [h0.1.no_empty, Bool.and_false, Bool.false_eq_true, if_false, hp]
+  intro hle
+  rcases backtrack_covers hsel hord hall (totalSize D' + 1) D' ⟨[], false⟩ hw
+    (propagate_shr _ _ hp h0.2).1 (by omega) with h | h
+  · exact h
+  · have := (backtrack_mono (sel := sel) (ord := ord) (cs := M.cons) (limit := limit)
+      (totalSize D' + 1) D' ⟨[], false⟩).2.1 (by intro h'; cases h') h
+    omega
+
+example : (solutions ⟨[⟨0, 2⟩, ⟨0, 2⟩], [.rel (.add (.var 0) (.var 1)) (.const 2) false]⟩).length < 100 ∧
+    dfsSolve true ⟨[⟨0, 2⟩, ⟨0, 2⟩], [.rel (.add (.var 0) (.var 1)) (.const 2) false]⟩ [] 100
+      = [[0, 2], [1, 1], [2, 0]] := by decide
+
+/-- **dfs_order_independent**: two runs of the repaired DFS that differ only in the variable
+selection and in the order in which values are tried agree on feasibility (both return something
+or both return nothing), and everything either returns is a solution. -/
+theorem dfs_order_independent (sel₁ sel₂ : Doms → Option Nat) (ord₁ ord₂ : Doms → Nat → List Int)
+    (h₁ : SelOK sel₁) (h₂ : SelOK sel₂) (o₁ : OrdOK ord₁) (o₂ : OrdOK ord₂) (M : Model)
+    (hsc : ∀ c ∈ M.cons, c.Scoped M.vars.length) (limit : Nat) (hl : 1 ≤ limit) :
+    (dfsSolveG sel₁ ord₁ true M [] limit = [] ↔ dfsSolveG sel₂ ord₂ true M [] limit = []) := by
+  rw [dfs_infeasible_iff sel₁ ord₁ h₁ o₁ M hsc limit hl, dfs_infeasible_iff sel₂ ord₂ h₂ o₂ M hsc limit hl]
 
 example : (∀ c ∈ ([.rel (.add (.var 0) (.var 1)) (.const 2) false, .allDiff [0, 1]] : List Con),
     c.Scoped 2) := by
